@@ -11,7 +11,7 @@
    of tools/c01.py; that part is testing, not proof (see evidence.unproved_clauses). *)
 From Coq Require Import List ZArith NArith Bool.
 From SC.gen Require Import SevTable.
-From SC Require P21Str P21Sep P21Skip P21Skip_Proofs.
+From SC Require P21Str P21Sep P21Skip P21Skip_Proofs P21Pass1 P21Pass1_Proofs.
 From SC Require Import P21Lex P21Lex_Proofs P21Syntax P21Syntax_Proofs.
 Import ListNotations.
 Local Open Scope Z_scope.
@@ -80,6 +80,22 @@ Example c01_print_control_directive_skipped :
   P21Skip.token_separator [32; 92; 78; 92; 35; 49; 61]%N = [35; 49; 61]%N /\
   P21Skip.token_separator [92; 70; 92; 10; 47; 42; 120; 42; 47; 35; 50]%N = [35; 50]%N.
 Proof. vm_compute. split; reflexivity. Qed.
+
+(* the first pass as a whole (src/cleditor/STEPfile.cc ReadData1 / CreateInstance, coq/P21Pass1.v): every well-formed simple
+   instance of a data section - in any layout: separators (white space, comments) before the number sign, between it and the
+   digits, around the equals sign, a record made of strings, comments and other characters - whose keyword the registry
+   can instantiate is created, in file order, under its own name and keyword, and the pass ends at ENDSEC *)
+Theorem c01_first_pass_creates_every_instance : forall creatable legal is st ws x,
+  is <> [] ->
+  P21Pass1.insts_ok is (P21Sep.seps_text st ++ [69; 78; 68; 83; 69; 67]%N ++ ws ++ P21Sep.SEMI :: x) = true ->
+  P21Sep.seps_ok st = true -> forallb is_space ws = true ->
+  forallb (fun i => creatable (P21Pass1.si_kw i)) is = true ->
+  NoDup (map (fun i => P21Pass1.ival (P21Pass1.si_ds i)) is) ->
+  P21Pass1.read_data1 creatable legal
+    (P21Pass1_Proofs.section_text is (P21Sep.seps_text st ++ [69; 78; 68; 83; 69; 67]%N ++ ws ++ P21Sep.SEMI :: x))
+  = (map P21Pass1.sinst_summary is, P21Pass1.Done).
+Proof. exact P21Pass1_Proofs.read_data1_wellformed. Qed.
+Print Assumptions c01_first_pass_creates_every_instance.
 
 Example c01_skip_example :
   let ts := [P21Skip.SChr 65%N; P21Skip.SChr 40%N; P21Skip.SStr [P21Str.Plain 120%N; P21Str.Plain 59%N; P21Str.Apos; P21Str.Page 39%N];
